@@ -1132,6 +1132,12 @@ func report(prop, tier string, seed uint64, plan Plan, bin, rbin string, results
 		}
 	}
 
+	if violations > 0 {
+		// a confirmed violation decides the exit code (harness trouble in other
+		// runs of the same batch is reported above)
+		exit = 1
+	}
+
 	// samples: a few complete scenarios
 	for i := 0; i < len(results) && len(samples) < 2; i++ {
 		sc := sim.Generate(prop, results[i].Seed)
